@@ -110,10 +110,13 @@ impl TraitHandler for DerefMutEnumHandler {
                         quote!( Self::#variant_ident ( #pattern_token_stream ) => #field_name, ),
                     );
                 } else {
-                    pattern_token_stream.extend(quote!( #field_name, .. ));
+                    // bind the field to another name, the field may be named like a constant or a variant in scope (e.g. `None`)
+                    let field_name_var = format_ident!("_{}", field_name);
+
+                    pattern_token_stream.extend(quote!( #field_name: #field_name_var, .. ));
 
                     arms_token_stream.extend(
-                        quote!( Self::#variant_ident { #pattern_token_stream } => #field_name, ),
+                        quote!( Self::#variant_ident { #pattern_token_stream } => #field_name_var, ),
                     );
                 }
             }
